@@ -325,6 +325,7 @@ func c12Run(x *X, c c12Cfg, concurrent bool) {
 		return
 	}
 	conn.SetBufferSize(c.buf)
+	applySeqBase(conn)
 	if c.cliDio {
 		conn.SetDirectIO(true)
 	}
@@ -610,4 +611,26 @@ func c12SetBufferSize(x *X) {
 
 func init() {
 	register(&Scenario{Prop: "C12", Name: "c12/set-buffer-size-any-time", Quick: []Bound{{0, 0}, {1, 0}}, Thorough: []Bound{{2, 0}}, Body: c12SetBufferSize, BudgetQ: 15})
+}
+
+// connections that are not new: the script on a connection whose sequence numbers start at 254 /
+// 16382 / 2^32-2 (crossing a varint length boundary during the script), for every header encoder
+// x body codec, with and without poll / pipelining.
+func c12HighSeq(x *X) {
+	var c c12Cfg
+	c.enc = encNames[x.Choose(len(encNames))]
+	c.cc = c12Codecs[x.Choose(len(c12Codecs))]
+	c.buf = 1000
+	switch x.Choose(3) {
+	case 1:
+		c.poll = true
+	case 2:
+		c.pipe, c.cliPipe = true, true
+	}
+	c12Run(x, c, false)
+	x.Outcome("ok")
+}
+
+func init() {
+	register(&Scenario{Prop: "C12", Name: "c12/matrix-high-sequence-numbers", Quick: []Bound{{0, 0}}, Thorough: []Bound{{0, 0}}, Body: c12HighSeq, SeqBases: []uint64{254, 16382, 1<<32 - 2}, MinHB: 1, MaxSteps: 200000, BudgetQ: 20})
 }
